@@ -202,6 +202,12 @@ def explicit_first(ctx, crate, crs, tag):
                 if c in best_conds or (c.kind == "discr" and c.src_place is not None and
                                        "PossibleDecision" in (c.src_place.get("ty") or b.local_ty(c.src_place["l"]))):
                     continue
+                # the same question asked through an Option combinator on the best proposal (`best.as_ref().is_some_and(|b| b.is_explicit..)`)
+                if c.kind == "bool" and c.src and c.src.get("k") == "call" and c.src["t"].get("f") and \
+                        c.src["t"]["f"]["name"] in ("is_some_and", "is_some", "is_none", "is_none_or", "map_or") and c.src["t"]["args"]:
+                    a0 = operand_place(c.src["t"]["args"][0])
+                    if a0 is not None and "PossibleDecision" in b.local_ty(a0["l"]):
+                        continue
                 lv = q.leaves(b, b.blocks[c.bb]["term"]["d"])
                 flds = {x[6:] for x in lv if x.startswith("field:")}
                 bad = sorted(f for f in flds if f.split(".")[-1] not in ("requires_clauses", "decision_tracker"))
